@@ -201,6 +201,33 @@ Definition native_finish (n : native) (r : nres) : nres :=
   | NStop a s1 => NStop a s1
   end.
 
+(* what call1 / try1 / rb1 do with the answer of run_function ([s] = the state in which the native was entered,
+   [f] = the callee it received) *)
+Definition reentrant_post (n : native) (s : state) (f : value) (r : nres) : nres :=
+  match n with
+  | NTry1 => match r with NErr _ s2 => NOk VNil (log_push s2 [TStr name_try1]) | r => r end
+  | NRb1 =>
+      let entry (y : state) (ok : Z) :=
+        [TStr name_rb1; TInt (Z.of_nat (scount s)); TInt (Z.of_nat (length (st_calls s)));
+         TInt (Z.of_nat (scount y)); TInt (Z.of_nat (length (st_calls y))); TInt ok;
+         TInt (callee_arity (st_heap s) f)] in
+      match r with
+      | NOk v s2 => NOk v (log_push s2 (entry s2 1%Z))
+      | NErr e s2 => NErr e (log_push s2 (entry s2 0%Z))
+      | r => r
+      end
+  | _ => r
+  end.
+
+(* what run_function does with the answer of the nested `_run` ([depth] = call depth before the two frames) *)
+Definition after_reenter (depth : nat) (r : rres) : nres :=
+  let unwind (x : state) := set_calls x (skipn (length (st_calls x) - depth) (st_calls x)) in
+  match r with
+  | ROk s3 => let '(s5, v) := spop (unwind s3) in NOk v s5
+  | RErr e _ s3 => NErr e (unwind s3)
+  | RStop ab s3 => NStop ab s3
+  end.
+
 End WithFloat.
 
 (* the natives that do not re-enter the VM and do not allocate: result and log entry are a function of the
